@@ -21,8 +21,9 @@ META = {
             "text -> read text = Ok G, read = grammar.pest under Peg.Spec then consume) follows from C07_tokenisation_statement. Theorem C07_lexical: grammar.pest under Peg.Spec tokenises every lexeme "
             "as written (number, integer, identifier, tag_id, escape with its nine alternatives, string / inner_str, character / inner_chr, insensitive_string and range with gaps "
             "inside) into the token tree tokens_of expects, and the implicit skipping of a non-atomic rule consumes exactly a gap (blanks, newlines, nested block comments, line "
-            "comments). PARTIAL: the tokenisation of the EXPRESSION-level rules (grammar_rules, grammar_rule, expression, term, node, terminal, the operator and repeat_* rules, "
-            "_push, _push_literal, peek_slice, doc lines: C07_tokenisation_statement) is not a theorem; it is checked on every run: the extracted Spec run of the transcribed "
+            "comments). FULL: C07_tokenisation (coq/Meta/Tok*.v) proves that Spec on the transcribed grammar.pest tokenises every legal spelling of a whole grammar (expression-level rules, "
+            "operators, counted repetitions, PUSH / PUSH_LITERAL / PEEK slices, tags, doc comments, leading `|`, trailing gaps) as tokens_of_grammar cg, and C07_reader_reconstructs : C07_statement "
+            "closes the property: spells_grammar G text -> the repaired reader returns G. It is also checked on every run: the extracted Spec run of the transcribed "
             "grammar.pest must return the real parser's forest, which must have the shape tokens_of_grammar cg, for every generated spelling. The same statement about the code AS SHIPPED is "
             "refuted in Coq (C07_insens_space_refuted: `a = { ^ \"b\" }` reads as Insens(\"\\\"b\"); C07_nested_leading_bar_refuted: `a = { (| b | c) }` panics; both legal per "
             "grammar.pest) and on the real code in every run; with fixes/C07-1 and fixes/C07-2 applied (probed) the repaired model applies and both witnesses must read back correctly.",
